@@ -254,6 +254,81 @@ class Scn:
             p.violation({"clause": f"worker-did-not-finish:{final}", **base}, {}, {})
 
 
+# ---------------------------------------------------------------------------
+# E4: a reader observing after the worker process died at any backend effect (and again after recovery)
+# ---------------------------------------------------------------------------
+CRASH_SCENARIOS = ["run-success", "run-failure", "run-retry", "kill-reroute", "recover-running"]
+
+
+def _observe(w: Any, p: Partial, base: dict, when: str, rep: dict) -> None:
+    """The C05 oracle on every accepted invocation of a C03 world, read by the surviving process."""
+    app = w.survivor
+    app.state_backend.wait_for_all_async_operations()
+    for inv_id in w.accepted:
+        r = app.state_backend.get_invocation(inv_id)
+        name, x = r.arguments.kwargs["name"], r.arguments.kwargs["x"]
+        st = r.status.name
+        p.count("crash_observations")
+        try:
+            out: tuple = ("ok", r.get_final_result())
+        except BaseException as e:  # noqa: BLE001
+            out = ("raise", e)
+        sig = None
+        if st == "SUCCESS":
+            if out[0] != "ok" or not deep_eq(out[1], x):
+                sig = "observed-success-without-matching-result"
+        elif st == "FAILED":
+            if out[0] != "raise" or not exc_eq(out[1], ValueError(name)):
+                sig = "observed-failed-without-matching-exception"
+        elif st != "CONCURRENCY_CONTROLLED_FINAL":
+            if out[0] == "ok":
+                sig = f"non-final-{st}-yields-value"
+            elif type(out[1]).__name__ != "InvocationError":
+                sig = f"non-final-{st}-wrong-error"
+        p.add("distinct_outcomes", (base["scenario"], when, st, out[0], type(out[1]).__name__))
+        if sig:
+            p.violation({"clause": sig, "observed": when, **base}, {"status": st, "read": repr(out[1])[:160], **rep}, {"kind": "crash", **rep})
+
+
+def _crash_run(scn: str, backend: str, crash: tuple | None, p: Partial) -> list[str]:
+    from vf.props import c03
+
+    setup, kw = c03.SCENARIOS[scn]
+    w = c03.W(backend, **kw)
+    w.expect_failed = set()
+    w.fx.attach(w.victim)
+    op = setup(w)
+    before = list(w.accepted)
+    w.fx.crash_at = crash
+    w.fx.active = True
+    try:
+        op()
+    except c03.Crash:
+        w.accepted = before
+    finally:
+        w.fx.active = False
+    rep = dict(scenario=scn, backend=backend, crash=list(crash) if crash else None)
+    eff = w.fx.trace[crash[0]] if crash and crash[0] < len(w.fx.trace) else "none"
+    base = dict(scenario=scn, backend=backend, crash_at=f"{crash[1]} {eff}" if crash else "no crash")
+    _observe(w, p, base, "at the crash instant", rep)
+    w.recover_and_drain()
+    _observe(w, p, base, "after recovery", rep)
+    p.count("transitions", len(w.fx.trace))
+    return list(w.fx.trace)
+
+
+def _crash_unit(item: tuple) -> Partial:
+    scn, backend = item
+    p = Partial()
+    ref = _crash_run(scn, backend, None, p)
+    for k in range(len(ref)):
+        for when in ("before", "after"):
+            _crash_run(scn, backend, (k, when), p)
+            p.count("crash_points")
+            p.count("traces_validated_against_impl")
+    return p
+
+
 def build(desc: dict) -> Scn:
     return Scn(desc)
 
@@ -264,6 +339,9 @@ def run(ctx: Ctx) -> None:
     items = [(s, b, m) for s in SERIALIZERS for b in env.BACKENDS for m in mins]
     if not only or "value" in only:
         for part in par.pmap(_value_unit, items):
+            ctx.merge(part)
+    if not only or "crash" in only:
+        for part in par.pmap(_crash_unit, [(s, b) for s in CRASH_SCENARIOS for b in env.BACKENDS]):
             ctx.merge(part)
     _setup_catalogue()
     res_idx = tasks.CATALOGUE["result"].index({"k": [1, 2]})
@@ -283,7 +361,10 @@ def run(ctx: Ctx) -> None:
                 f"2 backends x {len(mins)} externalisation thresholds, each produced by a real body through run() and read by a "
                 "fresh client-side invocation object, plus the non-final stages REGISTERED and PENDING; schedules: reader "
                 "(status then final result, up to 3-4 polls) against the finishing worker for success / externalised success / "
-                "failure / retry-then-success, all schedules with <= bound deviations")
+                "failure / retry-then-success, all schedules with <= bound deviations; crashes: the worker process dies before / "
+                f"after every backend effect of {len(CRASH_SCENARIOS)} scenarios (success, failure, retry, kill-and-reroute, running "
+                "recovery); a surviving process reads status and result of every accepted invocation at the crash instant and "
+                "again after recovery + drain")
     ctx.assume("result equality is type-, NaN- and sign-of-zero-aware; exceptions are compared by exact class and args")
     ctx.assume("the value domain per serializer is the intersection of what all three support (JSON types, enums, exceptions)")
 
@@ -292,5 +373,9 @@ def replay(payload: dict) -> bool:
     r = payload["replay"]
     if r.get("kind") == "schedule":
         return e1.replay_schedule(r)
+    if r.get("kind") == "crash":
+        p = Partial()
+        _crash_run(r["scenario"], r["backend"], tuple(r["crash"]) if r["crash"] else None, p)
+        return bool(p.violations)
     p = _value_unit((r["serializer"], r["backend"], r["min_size"]))
     return any(v["replay"].get("kind") == r["kind"] and v["replay"].get("idx") == r["idx"] for v in p.violations)
